@@ -293,6 +293,12 @@ def int_to_bytes_of(t: Term):
     if mc and mc[1] == "to_bytes" and mc[2] and is_const(mc[2][0]):
         order = mc[2][1] if len(mc[2]) > 1 else dict(mc[3]).get("byteorder", C("big"))
         return mc[0], cval(mc[2][0]), (cval(order) if is_const(order) else "?")
+    # bytes((value,)) / bytes([value]): one byte holding the value (raises outside 0..255, like to_bytes(1, ...))
+    bc = builtin_call(unsnap(t))
+    if bc and bc[0] == "bytes" and len(bc[1]) == 1 and not bc[2]:
+        a_ = unsnap(bc[1][0])
+        if a_.op == "tuple" and len(a_.args[0]) == 1:
+            return a_.args[0][0], 1, "big"
     return None
 
 
@@ -941,6 +947,26 @@ def envelope_writer_rules(m: Bf3Model, chk, pid):
                                         pos = pv
                                         while_stop = unsnap(rc[3])
                             if pos is not None and lo is pos and hi.op == "bin" and hi.args[0] == "Add" and ((unsnap(hi.args[1]) is pos and is_const(hi.args[2]) and cval(hi.args[2]) == K) or (unsnap(hi.args[2]) is pos and is_const(hi.args[1]) and cval(hi.args[1]) == K)):
+                                line_ok = True
+            if not line_ok and arg.op == "bin" and arg.args[0] == "Add" and is_const(arg.args[2]) and cval(arg.args[2]) == "\n" and lr.kind == "for":
+                # the same line cut out of the hex text of the whole image: rawdata.hex().upper()[2*pos : 2*pos + 2*K] (two digits per byte; upper() and hex() in either order
+                # do not apply: hex() comes first).  2*pos may be written pos * 2, pos + pos or pos << 1 -- compared as linear forms
+                from bfsa.length import lin as _lin
+
+                sl = unsnap(arg.args[1])
+                if sl.op == "slice" and sl.args[3] is NONE:
+                    up = meth_call(unsnap(sl.args[0]))
+                    hx = meth_call(unsnap(up[0])) if up and up[1] == "upper" and not up[2] else None
+                    src = unsnap(hx[0]) if hx and hx[1] == "hex" and not hx[2] else None
+                    pos = unsnap(lr.target)
+                    if src is not None and src.op == "param" and src.args[0] == "rawdata":
+                        lp, llo, lhi = _lin(pos), _lin(unsnap(sl.args[1])), _lin(unsnap(sl.args[2]))
+                        if lp is not None and llo is not None and lhi is not None:
+                            nz = lambda d_: {k_: v_ for k_, v_ in d_.items() if v_ != 0}
+                            want_lo = {k_: 2 * v_ for k_, v_ in lp.items()}
+                            want_hi = dict(want_lo)
+                            want_hi[1] = want_hi.get(1, 0) + 2 * K
+                            if nz(llo) == nz(want_lo) and nz(lhi) == nz(want_hi):
                                 line_ok = True
             if not line_ok:
                 ok, why = False, "a data line is not upper-case hex of rawdata[pos:pos+%d] followed by a newline (%s)" % (K, show(arg, 6))
